@@ -122,14 +122,15 @@ Proof.
     apply (BC_change rules F (fun k => N.eqb k t) s s'); auto.
     + intros k. rewrite (proj2 (proj2 (HP k))). apply HC.
     + intros k E. apply N.eqb_neq in E. now apply RO.
-    + intros k E. apply N.eqb_eq in E. subst k. destruct Hip as [I1 I2]. repeat split; auto.
+    + intros k E. apply N.eqb_eq in E. subst k. destruct Hip as [I1 I2]. split; [now apply in_progress_unsettled|]. split; [exact I2|]. split; [|split].
       * unfold bAt. destruct RT as [-> _]. unfold r'. apply completed_result_built.
       * intros _. destruct RT as [-> _]. unfold r'. apply completed_result_sig.
+      * rewrite Hdeps. apply (b_ns _ _ _ HC).
     + intros k E. apply N.eqb_eq in E. subst k. unfold stored, cAt. destruct RT as [-> _]. unfold r'. apply completed_result_cases.
   - (* scanning *)
     apply (BS_change rules env F rank (fun k => N.eqb k t) x s s'); auto.
     + intros k E. apply N.eqb_neq in E. now apply RO.
-    + intros k E. apply N.eqb_eq in E. now subst k.
+    + intros k E. apply N.eqb_eq in E. subst k. split; [apply in_progress_unsettled|]; apply Hip.
     + intros rq [H|[(k & H)|(t0 & z & Hz & H)]]; [now left|right; left; exists k; now rewrite <- (proj1 (proj2 (HP k)))|].
       right. right. rewrite TK in Hz. destruct (N.eqb t0 t) eqn:E; [|eauto]. apply N.eqb_eq in E. subst t0. inversion Hz. subst z. exists t, ti. auto.
     + intros k _. now rewrite (proj1 (HP k)), (proj1 (proj2 (HP k))).
@@ -239,10 +240,12 @@ Proof.
       right. right. left. unfold is_in_progress in *. rewrite HK. destruct (N.eqb root t); auto.
   - apply (BC_change rules F (fun k => N.eqb k t) s s'); auto.
     + intros k. rewrite (proj2 (proj2 (HP k))). apply HC.
-    + intros k E. apply N.eqb_eq in E. subst k. destruct Hip as [I1 I2]. unfold bAt. rewrite HR. repeat split; auto. intros Hb. now apply (b_sig _ _ _ HC).
+    + intros k E. apply N.eqb_eq in E. subst k. destruct Hip as [I1 I2]. split; [now apply in_progress_unsettled|]. split; [exact I2|]. unfold bAt. rewrite HR. split; [reflexivity|]. split.
+      * intros Hb. now apply (b_sig _ _ _ HC).
+      * rewrite Hdeps. apply (b_ns _ _ _ HC).
     + intros k E. left. unfold cAt. now rewrite Hst, HR.
   - apply (BS_change rules env F rank (fun k => N.eqb k t) x s s'); auto.
-    + intros k E. apply N.eqb_eq in E. now subst k.
+    + intros k E. apply N.eqb_eq in E. subst k. split; [apply in_progress_unsettled|]; apply Hip.
     + intros rq [H|[(k & H)|(t0 & z & Hz & H)]]; [now left|right; left; exists k; now rewrite <- (proj1 (proj2 (HP k)))|].
       right. right. rewrite TK in Hz. destruct (N.eqb t0 t) eqn:E; [|eauto]. apply N.eqb_eq in E. subst t0. inversion Hz. subst z. exists t, ti. auto.
     + intros k _. now rewrite (proj1 (HP k)), (proj1 (proj2 (HP k))).
